@@ -30,6 +30,14 @@ fn programs(n: usize, seed: u64) -> Vec<Value> {
         json!([{"op": "log", "t": [1, 2, 3, 4]}, {"op": "log", "t": []}, {"op": "create"}, {"op": "create"}]),
         json!([{"op": "sstore", "s": 9, "v": 9}, {"op": "revert"}]),
         json!([{"op": "burn", "n": 2}, {"op": "invalid"}]),
+        // storage refunds: slots set and cleared again in one call, slots that hold a value cleared - the gas USED (after
+        // refunds) is well below the gas the call NEEDS
+        json!([{"op": "sstore", "s": 1, "v": 1}, {"op": "sstore", "s": 2, "v": 1}, {"op": "sstore", "s": 4, "v": 1}, {"op": "sstore", "s": 5, "v": 1},
+               {"op": "sstore", "s": 1, "v": 0}, {"op": "sstore", "s": 2, "v": 0}, {"op": "sstore", "s": 4, "v": 0}, {"op": "sstore", "s": 5, "v": 0}, {"op": "ret", "s": 3}]),
+        json!([{"op": "sstore", "s": 3, "v": 0}, {"op": "burn", "n": 30}, {"op": "sstore", "s": 1, "v": 2}, {"op": "sstore", "s": 1, "v": 0}, {"op": "sstore", "s": 2, "v": 2}, {"op": "sstore", "s": 2, "v": 0},
+               {"op": "sstore", "s": 4, "v": 2}, {"op": "sstore", "s": 4, "v": 0}, {"op": "sstore", "s": 5, "v": 2}, {"op": "sstore", "s": 5, "v": 0}, {"op": "sstore", "s": 9, "v": 2}, {"op": "sstore", "s": 9, "v": 0}]),
+        // a nested call that does the heavy work: the caller keeps 1/64 of the gas back
+        json!([{"op": "sub", "ops": [{"op": "burn", "n": 250}, {"op": "burn", "n": 250}, {"op": "burn", "n": 250}, {"op": "sstore", "s": 2, "v": 4}]}, {"op": "ret", "s": 2}]),
         // long calldata, zero-heavy and not, in front of a callee that does (almost) nothing: the need is intrinsic gas
         json!([{"op": "pad", "n": 700, "b": 0}]),
         json!([{"op": "pad", "n": 4000, "b": 0}]),
